@@ -1987,23 +1987,27 @@ fn main() {
                 if matched.is_empty() { die(format!("lost anchor: `{}` in {}", spec.path, spec.file)); }
                 let mut want: BTreeSet<String> = spec.methods.iter().cloned().collect();
                 let all = want.is_empty();
-                // R27 table: inherent sibling methods of the same type in this file that nobody else provides
-                if !all && trait_name.is_none() {
+                // R27 table: inherent methods defined in this file (of any type) that nobody else provides; a name defined more than
+                // once in the file is ambiguous and left out
+                {
                     let listed: BTreeSet<String> = unit_toml.item.iter().flat_map(|i| i.methods.iter().cloned()).collect();
+                    let mut seen: BTreeMap<String, usize> = BTreeMap::new();
+                    let mut cand: BTreeMap<String, syn::ImplItemFn> = BTreeMap::new();
                     for it in items.iter() {
                         if let syn::Item::Impl(im2) = it {
                             if im2.trait_.is_some() || !cfg.keep(&im2.attrs) { continue; }
-                            if type_last_ident(&im2.self_ty).as_deref() != Some(type_name) { continue; }
                             for ii in im2.items.iter() {
                                 if let syn::ImplItem::Fn(mf) = ii {
                                     if !cfg.keep(&mf.attrs) { continue; }
                                     let n = mf.sig.ident.to_string();
+                                    *seen.entry(n.clone()).or_insert(0) += 1;
                                     if listed.contains(&n) || prelude_fn_names.contains(&n) { continue; }
-                                    rw.inline_table.insert(n, mf.clone());
+                                    cand.insert(n, mf.clone());
                                 }
                             }
                         }
                     }
+                    for (n, mf) in cand { if seen.get(&n) == Some(&1) { rw.inline_table.insert(n, mf); } }
                 }
                 for mut im in matched {
                     // select methods
